@@ -209,7 +209,9 @@ class Model:
                     raise NotImplementedError('unresolved Ref')
             return self.ev(target, sub, f, mode)[0], f
         if kind == 'Vars':
-            return MVars({k: self.plain(v) for k, v in (r[2] if len(r) > 2 else [])}), f
+            d = {k: self.plain(v) for k, v in (r[1] or [])}
+            d.update({k: self.plain(v) for k, v in (r[2] if len(r) > 2 else [])})
+            return MVars(d), f
         if kind == 'lit':
             if mode != 'match':
                 raise NotImplementedError('lit outside match')
